@@ -813,6 +813,9 @@ impl StreamInfo {
         self.max_frame_size = max_value
             .try_into()
             .map_err(|_| VerifyError::new("min_frame_size", "must be a 32-bit integer."))?;
+        // the frame-size fields of STREAMINFO have 24 bits.
+        verify_range!("min_frame_size", self.min_frame_size, ..(1u32 << 24))?;
+        verify_range!("max_frame_size", self.max_frame_size, ..(1u32 << 24))?;
         verify_true!(
             "min_frame_size",
             self.min_frame_size <= self.max_frame_size,
